@@ -55,17 +55,35 @@ def run_shards(prop, tier, seed, nshards, timeout, extra=None):
         except subprocess.TimeoutExpired:
             p.kill()
             p.wait()
-            results.append((None, "shard %d hit the %ds watchdog" % (i, timeout)))
+            results.append((partial_result(outp), "shard %d hit the %ds watchdog" % (i, timeout)))
             lg.close()
             continue
         lg.close()
         if p.returncode != 0 or not os.path.exists(outp):
             tail = open(os.path.join(scratch, "shard%d.log" % i)).read()[-1500:]
-            results.append((None, "shard %d died (rc=%s): %s" % (i, p.returncode, tail)))
+            results.append((partial_result(outp), "shard %d died (rc=%s): %s" % (i, p.returncode, tail)))
             continue
         results.append((jload_file(outp), None))
     shutil.rmtree(scratch, ignore_errors=True)
     return results
+
+
+def partial_result(outp):
+    """Violations a shard witnessed (and saved) before it was killed or died: still violations."""
+    side = outp + ".partial"
+    if not os.path.exists(side):
+        return None
+    from .util import jloads
+
+    vs = []
+    for line in open(side):
+        line = line.strip()
+        if line:
+            try:
+                vs.append(jloads(line))
+            except Exception:
+                pass
+    return {"violations": vs, "partial": True} if vs else None
 
 
 def merge(results):
@@ -75,8 +93,9 @@ def merge(results):
         "exhaustive": None,
     }
     for r, why in results:
-        if r is None:
+        if why:
             tot["inconclusive"].append(why)
+        if r is None:
             continue
         tot["cases"] += r.get("cases", 0)
         tot["counters"].update(r.get("counters", {}))
@@ -123,7 +142,7 @@ def main(argv=None):
         return 0
     tier = spec[a.tier]
     nshards = a.shards or tier.get("shards", NCPU)
-    results = run_shards(prop, a.tier, seed, nshards, tier.get("watchdog", 900))
+    results = run_shards(prop, a.tier, seed, nshards, int(os.environ.get("VERIF_WATCHDOG") or tier.get("watchdog", 900)))
     tot = merge(results)
     # thorough tier: the monitors also ride on the repository's own tests
     from .engines import ride as R
